@@ -233,6 +233,9 @@ GROUPS = [
      "Directory": ["parent"], "AbsDir": ["parent", "canonical_path"], "IsEmpty": ["is_dir_empty", "len"],
      "HasXattrs": ["list_xattr"], "Capabilities": ["get_xattr", "parse_capabilities"], "Mime": ["from_filepath"]},
 ]
+META_ACCESSORS = [("Inode", "ino"), ("Hardlinks", "nlink"), ("Blocks", "blocks"), ("Device", "dev"), ("Size", "len"),
+                  ("FormattedSize", "len"), ("Modified", "modified"), ("Accessed", "accessed"), ("Created", "created"),
+                  ("IsDir", "is_dir"), ("IsFile", "is_file")]
 PERM_COLUMNS = {
     "UserRead": ("user_read", "mode_user_read"), "UserWrite": ("user_write", "mode_user_write"),
     "UserExec": ("user_exec", "mode_user_exec"), "UserAll": ("user_all", "mode_user_all"),
@@ -295,6 +298,24 @@ def r3(ctx):
             if foreign:
                 ctx.violation("accessor/%s/sibling" % col, ctx.where(GFV, a["body"]),
                               "column %s reads a sibling column's attribute (%s)" % (col, foreign))
+    # the stat-derived columns read the entry's own lstat record (std::fs::Metadata, C04-R5 decides that it is an lstat): the
+    # same-named accessor of another type (DirEntryExt::ino is readdir's d_ino: the covered directory under a mount point)
+    # is a different number
+    for col, acc in META_ACCESSORS:
+        a = arms.get(col)
+        if a is None:
+            continue
+        for x in walk_exprs(a["body"]):
+            if x["k"] == "MCall" and x["m"] == acc:
+                n += 1
+                rty = str(x["recv"].get("ty", ""))
+                cal = str(x.get("callee", ""))
+                ok = "std::fs::Metadata" in rty or "MetadataExt::" in cal or "fs::Metadata::" in cal
+                ctx.obligation(ok)
+                if not ok:
+                    ctx.violation("accessor/%s/not-lstat" % col, ctx.where(GFV, x),
+                                  "column %s reads `%s` through %s on a `%s`, not on the entry's lstat record (std::fs::Metadata): "
+                                  "the directory entry's own number differs from lstat's for mount points" % (col, acc, cal or "?", rty))
     for col, (meta_fn, mode_fn) in PERM_COLUMNS.items():
         a = arms.get(col)
         if a is None:
